@@ -63,21 +63,45 @@ def _invoke(case, c, operands):
         kw = {}
         if case.get("out_len") is not None:
             kw["result_labels"] = [f"z_{i}" for i in range(case["out_len"])]
+            if case.get("named") == "odd" and kw["result_labels"]:
+                kw["result_labels"][0] = ""
         r = GEN.add_plus_one(c, operands[0], add_outputs=case.get("add_outputs", False), big_endian=be, **kw)
+        if "result_labels" in kw and list(r) != kw["result_labels"]:
+            raise AssertionError(f"returned result labels {list(r)!r} are not the requested ones {kw['result_labels']!r}")
         return {"res": le(r, be)}
+    # named == "odd": requested result labels that are legal gate labels but falsy or unusual ('' , '0', ' ')
+    odd = case.get("named") == "odd"
+
+    def honoured(got, asked):
+        if list(got) != list(asked):
+            raise AssertionError(f"returned result labels {list(got)!r} are not the requested ones {list(asked)!r}")
+
     if fn == "add_if_then_else":
-        kw = {"result_label": "ite_res"} if case.get("named") else {}
+        kw = {"result_label": "" if odd else "ite_res"} if case.get("named") else {}
         r = GEN.add_if_then_else(c, operands[0][0], operands[0][1], operands[0][2], add_outputs=case.get("add_outputs", False), **kw)
+        if kw:
+            honoured([r], [kw["result_label"]])
         return {"res": [r]}
     if fn == "add_pairwise_if_then_else":
         n = case["n"]
         kw = {"result_labels": [f"ite_{i}" for i in range(n)]} if case.get("named") else {}
+        if odd:
+            kw["result_labels"][-1] = ""
+            kw["result_labels"][0] = "0" if n > 1 else ""
         r = GEN.add_pairwise_if_then_else(c, operands[0], operands[1], operands[2], add_outputs=case.get("add_outputs", False), **kw)
+        if kw:
+            honoured(r, kw["result_labels"])
         return {"res": list(r)}
     if fn == "add_pairwise_xor":
         n = case["n"]
         kw = {"result_labels": [f"xr_{i}" for i in range(n)]} if case.get("named") else {}
+        if odd:
+            kw["result_labels"][0] = ""
+            if n > 1:
+                kw["result_labels"][-1] = " "
         r = GEN.add_pairwise_xor(c, operands[0], operands[1], add_outputs=case.get("add_outputs", False), **kw)
+        if kw:
+            honoured(r, kw["result_labels"])
         return {"res": list(r)}
     raise ValueError(fn)
 
@@ -401,6 +425,12 @@ def make_cases(tier, rnd):
             cases.append(dict(fn="add_pairwise_xor", widths=[n, n], n=n, add_outputs=ao, named=bool(n % 2), host="dup-outputs"))
             cases.append(dict(fn="add_pairwise_if_then_else", widths=[n, n, n], n=n, add_outputs=ao, named=bool(n % 2), host="dup-outputs"))
         cases.append(dict(fn="add_if_then_else", widths=[3], add_outputs=ao, named=False, host="dup-outputs"))
+        for h_ in ("fresh", "host"):
+            cases.append(dict(fn="add_if_then_else", widths=[3], add_outputs=ao, named="odd", host=h_))
+            for n_ in (1, 2, 3):
+                cases.append(dict(fn="add_pairwise_if_then_else", widths=[n_, n_, n_], n=n_, add_outputs=ao, named="odd", host=h_))
+                cases.append(dict(fn="add_pairwise_xor", widths=[n_, n_], n=n_, add_outputs=ao, named="odd", host=h_))
+            cases.append(dict(fn="add_plus_one", widths=[2], out_len=3, add_outputs=ao, named="odd", host=h_))
         cases.append(dict(fn="add_plus_one", widths=[3], out_len=3, add_outputs=ao, host="dup-outputs"))
         for il, ol in ((1, None), (2, None), (3, None), (3, 5), (2, 2)):
             cases.append(dict(fn="add_plus_one", widths=[il], out_len=ol, add_outputs=ao, host="host", live_outputs=True))
